@@ -211,7 +211,8 @@ def havoc_heap(eng, s, v, field):
         if v.kind == "list":
             n = eng.fresh_len(v.base)
             s = s.with_cell(v.base, "n", n)
-            s = s.with_cell(v.base, "items", eng.fresh(v.base + ".items", cell["items"].sort()))
+            for key in [k_ for k_ in cell if k_.startswith("items")]:
+                s = s.with_cell(v.base, key, eng.fresh(v.base + "." + key, cell[key].sort()))
             return s.assume(n >= 0)
         if v.kind == "dict":
             for key in list(cell):
